@@ -125,3 +125,60 @@ func Harness_C06_leafhash() {
 	vAssert(err == nil && h == backend, "client-computed leaf hash equals the backend's Merkle leaf hash of the entry the log holds (fresh or duplicate)")
 	vReach("agree")
 }
+
+// Harness_C06_sthHistory: two get-sth requests on one log instance, with a sequencing step of
+// any batch size in between (including an empty one: same tree, newer timestamp; and the
+// unchanged head): the second STH served reports the backend's tree size, root and millisecond
+// timestamp as of the second request, and is signed over exactly those values (a cached
+// signature may only be reused for byte-identical signed input).
+//
+//verif:opt maxpaths=2000 reach=advanced,empty-step,unchanged
+func Harness_C06_sthHistory() {
+	be, rl := &envBackend{}, &envReqLog{}
+	li := envLogInfo(be, rl)
+	sg := &envSigner{pub: &ecdsa.PublicKey{}, sig: []byte{0x30, 0x01}}
+	li.signer = sg
+	size1, ts1 := vU64("size1"), vU64("ts1")
+	root1 := vBytes("root1", 32)
+	size2, ts2, root2 := size1, ts1, root1
+	switch vChoice("step", 3) {
+	case 0: // entries were sequenced
+		size2, ts2, root2 = vU64("size2"), vU64("ts2"), vBytes("root2", 32)
+		vAssume(size2 > size1 && ts2 >= ts1)
+	case 1: // an empty sequencing step: the backend re-issues the root with a newer timestamp
+		ts2 = vU64("ts2")
+		vAssume(ts2 > ts1)
+	}
+	call := 0
+	be.latestRoot = func(in *trillian.GetLatestSignedLogRootRequest) (*trillian.GetLatestSignedLogRootResponse, error) {
+		call++
+		if call == 1 {
+			return &trillian.GetLatestSignedLogRootResponse{SignedLogRoot: envRootOf(size1, root1, ts1)}, nil
+		}
+		return &trillian.GetLatestSignedLogRootResponse{SignedLogRoot: envRootOf(size2, root2, ts2)}, nil
+	}
+	w1 := &envWriter{}
+	st, err := getSTH(context.Background(), li, w1, envGet(nil))
+	vAssert(st == http.StatusOK && err == nil, "first STH served")
+	w2 := &envWriter{}
+	st, err = getSTH(context.Background(), li, w2, envGet(nil))
+	vAssert(st == http.StatusOK && err == nil && call == 2, "second STH served from a fresh backend read")
+	var got ct.GetSTHResponse
+	vAssert(vJSONDecode(w2.body, &got) == nil, "response is JSON")
+	ms2 := ts2 / 1000 / 1000
+	vAssert(got.TreeSize == size2 && got.Timestamp == ms2 && bytes.Equal(got.SHA256RootHash, root2), "the second STH reports the backend's tree size, root and millisecond timestamp as of the second request")
+	want := sha256.Sum256(rfcSTHSignatureInput(ms2, size2, root2))
+	last := sg.digests[len(sg.digests)-1]
+	ms1 := ts1 / 1000 / 1000
+	if ms1 == ms2 && size1 == size2 && bytes.Equal(root1, root2) {
+		vAssert(len(sg.digests) == 1, "byte-identical signed input: the cached signature is reused")
+		vReach("unchanged")
+	} else {
+		vAssert(len(sg.digests) == 2 && bytes.Equal(last, want[:]), "a different tree head is signed afresh over exactly its own values")
+		if size2 > size1 {
+			vReach("advanced")
+		} else {
+			vReach("empty-step")
+		}
+	}
+}
